@@ -1,7 +1,7 @@
 """C14 — stored paths read back unchanged; live paths never lose files.
 
-Theorems: coq/theorems/C14.v (model coq/model/StoreM.v, proofs coq/proofs/StoreP.v; the
-fixed-point print/parse lemmas of C19's coq/proofs/CodecP.v are reused).
+Theorems: coq/theorems/C14.v (model coq/model/StoreM.v, proofs coq/proofs/StoreP.v and
+coq/proofs/StoreAgainP.v; the fixed-point print/parse lemmas of C19's coq/proofs/CodecP.v are reused).
 Tie: (a) functional lock-step: the REAL PathStorage.output + load_path on generated Path objects
 (several source files, repeated and colliding base names, reversed frames, index None, missing
 energies, NaN, values at the width limit, ties of the sixth decimal, several order columns,
@@ -11,12 +11,24 @@ byte for byte, the whole directory tree, the returned configs and the loaded pat
 (py/sysharness.py) with delete_old / delete_old_all on and off, 1-3 workers, 2-4 ensembles,
 restarts in the middle, keep_traj_fnames: after EVERY treat_output the directory tree under
 load/, pn_olds, the live paths, traj_num and restart.toml's active list must be what the
-extracted deletion machine predicts.
+extracted deletion machine predicts;
+(c) (round 6) a directory load/<n>/ that is stored into a SECOND time: functionally (path A stored with the
+real PathStorage.output, then a different path B into the same directory, same or other step number;
+model = store on the disk A left: "write = replace") and by the real program (the run dies right after
+pstore.output / before restart.toml is rewritten, is continued and does the step again with the same
+path number; a simulation started again in the folder of an earlier run);
+(d) (round 6) real runs with [output] data_dir other than the run directory (relative, nested,
+absolute), with and without delete_old / delete_old_all / keep_traj_fnames, stops and restarts.
 Oracle: the statement itself evaluated on the implementation (no model involved): same length,
 same (base name, index, direction), |order - original| <= 5e-7, energies where present, every
 referenced file exists under load/<n>/accepted/ with the content of its source; no removal of a
 file of a live path or of a path listed in restart.toml, none in an initial path, a replaced
-path loses files only after n-1 later replacements, path numbers are never used twice.
+path loses files only after n-1 later replacements, path numbers are never used twice; and after
+EVERY treat_output of every real run: each live path as the program holds it in memory against
+load_path() of its own directory <run directory>/load/<n>/ (what a restart reads): it exists there,
+same length, same (base name, index, direction), orders / present energies to the written decimals,
+every frame refers to an existing file under load/<n>/accepted/; a stopped run can be continued
+from restart.toml (every path it lists is in load/).
 """
 import importlib.util  # noqa: F401
 import hashlib
@@ -26,6 +38,7 @@ import math
 import os
 import shutil
 import tempfile
+import traceback
 from fractions import Fraction
 
 import common
@@ -35,8 +48,8 @@ META = {
     "id": "C14",
     "level": "proof",
     "technique": "Coq theorems over an executable byte-level model of the three text files, read_some_lines, _generate_file_names/_move_path on a finite-map disk and load_path (round trip by induction over the frames, reusing the fixed-point print/parse lemmas of C19), and over a state machine of treat_output's pn_olds queue (invariants over arbitrary accept/reject/restart histories) + functional lock-step of the extracted model with the real PathStorage/load_path and trace validation of the directory tree of real runs",
-    "text": "Unbounded theorems: for every path (any number of frames, order columns, optional energies, NaN, any source files, index None, any step/move text) whose file base names are non-empty and free of white space and whose frames have the same number of order columns, load(store p) succeeds and returns frame by frame the same (base name re-rooted under load/<n>/accepted/, index (None -> 0), direction), every order and energy rounded to the written six decimals (half a unit of the sixth decimal at most, whatever the field width), absent energies as NaN; every file the loaded path refers to is a destination of the move into the path's own directory and exists; under the explicit hypothesis that distinct source files have distinct base names each referenced file has the content of its source (refuted without it). For every history of accepted ensembles, step ends and restarts, every n and every combination of delete_old / delete_old_all: a deleted path is not live, is not in the restart record on disk at that moment nor in the one written at the end of the step, has a number above n-2 (initial paths are never deleted), was replaced at least n-1 replacements earlier, new path numbers are never used twice, and every live path and every path of the restart record keeps its text and trajectory files. Tie: see the module doc string.",
-    "note": "PathStorage.output clears its target directory first (fix 5456497); the model has both variants (store_gen false: everything is removed, also a file the path being stored refers to - refuted by C14_inplace_refuted, found by this check and repaired in /repo as 32e0fd0; store_gen true: files the path refers to are spared); py/params_c14.py reads from the source which variant /repo is, C14_store_is_repaired pins the repaired one, and the correspondence runs against the variant found. Trusted: Coq kernel; extraction + ocaml/c14_driver.ml; py/params_c14.py (AST reader for formats, labels, file names, the three comparisons with n - 2; fails closed); the harness (py/sysharness.py, generators, os.remove/rmdir and PathStorage.output wrappers that log the order of effects). Python's format()/float() are trusted to be correctly rounded (checked per value against exact rationals). Assumed and evaluated on every case: base names non-empty and without white space, a uniform number of order columns, a non-empty path, the move text without line breaks, no moved file is one of the three text files, keep_traj_fnames extensions without '/'. Not modelled: directories, inf, '\\r' translation, unicode. Observation O2 (outside the statement): delete_old_all together with keep_traj_fnames ends in os.rmdir of a non-empty directory (OSError inside treat_output); the model reproduces it (C14_O2_rmdir_nonempty) and the check confirms it on the real program and reports it in the evidence, not as a violation. A crash in the middle of treat_output is C08's subject; restarts here are at step boundaries.",
+    "text": "Unbounded theorems: for every path (any number of frames, order columns, optional energies, NaN, any source files, index None, any step/move text) whose file base names are non-empty and free of white space and whose frames have the same number of order columns, load(store p) succeeds and returns frame by frame the same (base name re-rooted under load/<n>/accepted/, index (None -> 0), direction), every order and energy rounded to the written six decimals (half a unit of the sixth decimal at most, whatever the field width), absent energies as NaN; every file the loaded path refers to is a destination of the move into the path's own directory and exists; under the explicit hypothesis that distinct source files have distinct base names each referenced file has the content of its source (refuted without it). For every history of accepted ensembles, step ends and restarts, every n and every combination of delete_old / delete_old_all: a deleted path is not live, is not in the restart record on disk at that moment nor in the one written at the end of the step, has a number above n-2 (initial paths are never deleted), was replaced at least n-1 replacements earlier, new path numbers are never used twice, and every live path and every path of the restart record keeps its text and trajectory files. Storing is 'write = replace' (C14_txt_written_not_appended, C14_store_again_replaces, C14_store_again_files_exist): the round trip holds for EVERY disk, in particular when the directory already holds a path stored earlier (a step redone after a crash between the store and the rewrite of restart.toml re-uses the path number; a run started again in an old folder): what is read back is the path stored last. Tie: see the module doc string (round 6: directories stored into twice, functionally and by crashed-and-continued / restarted-from-scratch real runs; real runs with a data_dir other than the run directory, judged after every step by load_path of every live path from <run directory>/load/<n>/).",
+    "note": "PathStorage.output clears its target directory first (fix 5456497); the model has both variants (store_gen false: everything is removed, also a file the path being stored refers to - refuted by C14_inplace_refuted, found by this check and repaired in /repo as 32e0fd0; store_gen true: files the path refers to are spared); py/params_c14.py reads from the source which variant /repo is, C14_store_is_repaired pins the repaired one, and the correspondence runs against the variant found. Trusted: Coq kernel; extraction + ocaml/c14_driver.ml; py/params_c14.py (AST reader for formats, labels, file names, the three comparisons with n - 2; fails closed); the harness (py/sysharness.py, generators, os.remove/rmdir and PathStorage.output wrappers that log the order of effects). Python's format()/float() are trusted to be correctly rounded (checked per value against exact rationals). Assumed and evaluated on every case: base names non-empty and without white space, a uniform number of order columns, a non-empty path, the move text without line breaks, no moved file is one of the three text files, keep_traj_fnames extensions without '/'. Not modelled: directories, inf, '\\r' translation, unicode. Observation O2 (outside the statement): delete_old_all together with keep_traj_fnames ends in os.rmdir of a non-empty directory (OSError inside treat_output); the model reproduces it (C14_O2_rmdir_nonempty) and the check confirms it on the real program and reports it in the evidence, not as a violation. A crash in the middle of treat_output is C08's subject; restarts here are at step boundaries, except family (c): two crash points (right after pstore.output returned; when the step is about to rewrite restart.toml) chosen because they make the continued run store into a directory a second time - judged by the oracle only (the deletion machine has no crash operation; py/crash_harness.py's Crash/referenced_files are reused read-only). The location of the stored paths (os.getcwd()/load_dir, not data_dir) is not part of the Coq model (the model's home directory is an input): it is checked by the oracle on real runs with data_dir = 'results', 'out/data/' and an absolute directory; in those runs the check also confirms that the data file is in data_dir and nowhere else (scenario sanity, reported as obligation/correspondence if it fails). The unmodified program runs, stops and restarts correctly with such a data_dir.",
     "design_ref": "4/C14",
 }
 LEVEL = "proof"
@@ -117,8 +130,9 @@ def build_path(case, root):
     return p
 
 
-def hypotheses(case, root):
-    """the hypotheses of the round-trip theorems, evaluated on the input; list of those that fail"""
+def hypotheses(case, root, exist=None):
+    """the hypotheses of the round-trip theorems, evaluated on the input; list of those that fail
+    (exist: the files on the disk right before the store under test; default: the files of the case)"""
     bad = []
     frs = case["frames"]
     if not frs:
@@ -140,7 +154,8 @@ def hypotheses(case, root):
         bad.append("text-file-moved")
     if any("/" in e for e in case["keep"]):
         bad.append("slash-in-extension")
-    exist = {absname(root, k) for k in case["files"]}
+    if exist is None:
+        exist = {absname(root, k) for k in case["files"]}
     if any(a not in exist for a in srcs):
         bad.append("missing-source")
     bases = [os.path.basename(a) for a in srcs]
@@ -161,8 +176,19 @@ def run_func_case(case, keeproot=None):
                 f.write(content)
         home = os.path.join(root, "load")
         os.makedirs(home, exist_ok=True)
+        # earlier stores into the SAME directory load/<pn>/ (a step redone after a crash between the store and
+        # the rewrite of restart.toml, a run started again in a folder that still holds load/<pn>/): done with
+        # the real PathStorage.output; the store under test then starts from the disk they leave
+        prior_exc = None
+        for pr in case.get("prior") or []:
+            pcase = dict(case, frames=pr["frames"], step=pr["step"], gen=pr["gen"], keep=pr["keep"])
+            try:
+                PathStorage(keep_traj_fnames=list(pr["keep"])).output(pr["step"], {"path": build_path(pcase, root), "dir": home})
+            except Exception as e:  # noqa: BLE001
+                prior_exc = repr(e)
+                break
         before = snapshot_files(root)
-        hyp_bad, collide, srcs = hypotheses(case, root)
+        hyp_bad, collide, srcs = hypotheses(case, root, exist=set(before))
         path = build_path(case, root)
         move = str(path.generated)
         disk = ",".join(f"{hx(k)}={hx(v)}" for k, v in sorted(before.items())) or "-"
@@ -170,6 +196,10 @@ def run_func_case(case, keeproot=None):
                         ",".join(hx(e) for e in case["keep"]) or "-", ";".join(enc_frame(fr, root) for fr in case["frames"]) or "-"])
         impl = {"root": root}
         problems = []
+        if prior_exc is not None:
+            impl["store"] = "FAIL"
+            impl["store_exc"] = "while storing the EARLIER path of the case: " + prior_exc
+            return req, impl, problems, (hyp_bad + ["earlier-store-failed"], collide)
         try:
             out = PathStorage(keep_traj_fnames=list(case["keep"])).output(case["step"], {"path": path, "dir": home})
             impl["store"] = "OK"
@@ -194,7 +224,7 @@ def run_func_case(case, keeproot=None):
             L = impl["load"]
             frs = case["frames"]
             if L is None:
-                problems.append(f"the stored path cannot be loaded again: {impl.get('load_exc')}")
+                problems.append(f"the stored path cannot be loaded again: load_path raises {impl.get('load_exc')}" + why_unloadable(arch))
             elif len(L) != len(frs):
                 problems.append(f"stored {len(frs)} frames, loaded {len(L)}")
             else:
@@ -312,7 +342,7 @@ SPECIAL = [0.0, -0.0, 1.0, -1.0, 0.5, 1.25, 1.234567, 1.2345675, 1.2345665, 1 / 
            1e15, -1e15, 2.0 ** 60, 1 / 3, -2 / 3, 0.1, 0.2, 0.3, 9.9999995, 9.99999949, 0.9999995, 4503599627370497.0, 1e-320, float("nan")]
 
 
-def gen_func_cases(rng, tier):
+def gen_func_cases(rng, tier, seed=0):
     cases = []
 
     def files_for(frames, extra=None):
@@ -325,9 +355,14 @@ def gen_func_cases(rng, tier):
     def frame(file="w0/a.lat", idx=0, rev=False, orders=(0.5,), vpot=None, ekin=None):
         return {"orders": [f2j(o) for o in orders], "vpot": f2j(vpot), "ekin": f2j(ekin), "file": file, "idx": idx, "rev": rev}
 
-    def add(cls, frames, files=None, step=7, gen=("sh", 0.5, 1, 2), pn=3, keep=()):
+    def add(cls, frames, files=None, step=7, gen=("sh", 0.5, 1, 2), pn=3, keep=(), prior=None):
         cases.append({"kind": "func", "class": cls, "frames": frames, "files": files if files is not None else files_for(frames),
                       "step": step, "gen": list(gen) if isinstance(gen, tuple) else gen, "pn": pn, "keep": list(keep)})
+        if prior:
+            cases[-1]["prior"] = prior
+
+    def earlier(frames, step=7, gen=("sh", 0.5, 1, 2), keep=()):
+        return {"frames": frames, "step": step, "gen": list(gen) if isinstance(gen, tuple) else gen, "keep": list(keep)}
 
     # ---- exhaustive small scope: every assignment of (file, index, direction) to <= L frames
     pool = ["w0/a.lat", "w0/b.lat", "w1/a.lat"]
@@ -406,7 +441,95 @@ def gen_func_cases(rng, tier):
             extra["load/%d/accepted/%s" % (3, os.path.basename(use[0]))] = "already there"
         add("random", frs, files=files_for(frs, extra), step=rng.randrange(0, 10 ** 6), gen=rng.choice([("sh", 0.5, 1, 2), "ld", None, ("s+", 0, 0, 0)]),
             pn=3, keep=keep)
+    # ---- a directory that is stored into a SECOND time (round 6): path A is stored into load/3/ with the real
+    # PathStorage.output, then a DIFFERENT path B (other length, values, file names) into the same directory with
+    # the same step number (a step done again after the run died between pstore.output and write_toml re-uses
+    # the path number) or another one (a run started again in a folder that still holds load/<n>/ of an earlier
+    # run); load_path must return B.  Own random stream: the cases above and the schedules of (b) stay as they were.
+    inpl = "load/3/accepted/"
+    A3 = [frame("w0/a.lat", 0, orders=(0.5,), vpot=-1.0, ekin=0.25), frame("w0/b.lat", 1, True, orders=(1.5,), vpot=-2.0, ekin=0.5),
+          frame("w0/a.lat", 2, orders=(2.5,), vpot=None, ekin=None)]
+    B5 = [frame("w1/c.lat", k, bool(k % 2), orders=(10.25 + k,), vpot=-3.0 - k, ekin=1.0 + 0.5 * k) for k in range(3)] + \
+         [frame("w1/d.lat", k, False, orders=(20.125 - k,), vpot=None, ekin=None) for k in range(2)]
+    Bvariants = {
+        "longer": B5,
+        "shorter": [frame("w1/c.lat", 4, True, orders=(7.75,), vpot=-9.0, ekin=3.0)],
+        "same-length-other-files": [frame("w1/c.lat", 3, True, orders=(4.5,), vpot=-7.0, ekin=1.25), frame("w1/c.lat", 4, True, orders=(5.5,), vpot=-8.0, ekin=None),
+                                    frame("w1/d.lat", 0, False, orders=(6.5,), vpot=None, ekin=2.25)],
+        # the engine used the same file names again (no pid / counter in them): only the content of the files and the values differ
+        "same-names-other-values": [frame("w1/a.lat", 0, orders=(0.75,), vpot=-1.5, ekin=0.125), frame("w1/b.lat", 1, True, orders=(1.75,), vpot=-2.5, ekin=0.375),
+                                    frame("w1/a.lat", 2, orders=(2.75,), vpot=None, ekin=None)],
+        "only-energies-differ": [frame("w1/a.lat", 0, orders=(0.5,), vpot=-1.25, ekin=0.25), frame("w1/b.lat", 1, True, orders=(1.5,), vpot=-2.0, ekin=0.75),
+                                 frame("w1/a.lat", 2, orders=(2.5,), vpot=None, ekin=None)],
+        "only-orders-differ": [frame("w1/a.lat", 0, orders=(0.5,), vpot=-1.0, ekin=0.25), frame("w1/b.lat", 1, True, orders=(1.625,), vpot=-2.0, ekin=0.5),
+                               frame("w1/a.lat", 2, orders=(2.5,), vpot=None, ekin=None)],
+        "only-directions-differ": [frame("w1/a.lat", 0, True, orders=(0.5,), vpot=-1.0, ekin=0.25), frame("w1/b.lat", 1, False, orders=(1.5,), vpot=-2.0, ekin=0.5),
+                                   frame("w1/a.lat", 2, True, orders=(2.5,), vpot=None, ekin=None)],
+        "no-energies": [frame("w1/c.lat", 0, orders=(3.5,)), frame("w1/c.lat", 1, orders=(4.5,))],
+        # B re-uses a file A left in the directory (a reloaded path extended by a new segment) / is A itself, reloaded
+        "keeps-a-file-of-A": [frame(inpl + "a.lat", 2, True, orders=(2.5,), vpot=-4.0, ekin=0.5), frame(inpl + "a.lat", 0, True, orders=(0.5,), vpot=-1.0, ekin=0.25),
+                              frame("w1/c.lat", 0, False, orders=(8.5,), vpot=-5.0, ekin=0.75), frame("w1/c.lat", 1, False, orders=(9.5,), vpot=None, ekin=None)],
+        "A-reloaded-and-reversed": [frame(inpl + os.path.basename(fr["file"]), fr["idx"], not fr["rev"], orders=(3.0 - j2f(fr["orders"][0]),),
+                                          vpot=j2f(fr["vpot"]), ekin=j2f(fr["ekin"])) for fr in reversed(A3)],
+    }
+    for nm, B in Bvariants.items():
+        fs = files_for(A3 + [fr for fr in B if not fr["file"].startswith(inpl)])
+        add("restore:" + nm, B, files=fs, prior=[earlier(A3)])
+        add("restore:" + nm, B, files=fs, step=9, gen=("sh", 0.25, 2, 1), prior=[earlier(A3, step=3, gen=("wf", 0.5, 4, 2))])
+    add("restore:three-stores", B5, files=files_for(A3 + Bvariants["same-names-other-values"] + B5),
+        prior=[earlier(A3), earlier(Bvariants["same-names-other-values"])])
+    add("restore:two-columns", [frame("w1/c.lat", k, orders=(1.5 * k, -0.25 * k), vpot=0.5 * k, ekin=None) for k in range(4)],
+        files=files_for(A3 + [frame("w1/c.lat")]), prior=[earlier(A3)])
+    add("restore:one-column-after-two", A3, files=files_for(A3 + [frame("w1/c.lat")]),
+        prior=[earlier([frame("w1/c.lat", k, orders=(1.5 * k, -0.25 * k), vpot=0.5 * k, ekin=None) for k in range(4)])])
+    kaux = {"w0/a.aux": "aux a", "w0/b.aux": "aux b", "w1/c.aux": "aux c", "w1/d.log": "log d"}
+    for keepA, keepB in (([".aux"], [".aux"]), ([".aux"], []), ([], [".aux", ".log"])):
+        add("restore:keep", B5, files=files_for(A3 + B5, kaux), keep=keepB, prior=[earlier(A3, keep=keepA)])
+    import random as _random
+    rng2 = _random.Random(f"C14-stored-again-{seed}")
+    namesA = ["w0/a.lat", "w0/b.lat", "w0/c.xyz", "w0/.f"]
+    namesB = ["w1/a.lat", "w1/d.lat", "w2/sub/e.trr", "w1/g.h.i", "w2/c.xyz"]
+
+    def rand_frames(use, n, ncol):
+        def val():
+            r = rng2.random()
+            if r < 0.1:
+                return rng2.choice(SPECIAL)
+            return rng2.randrange(-2 ** 20, 2 ** 20) / 2 ** rng2.randrange(0, 24)
+        return [frame(rng2.choice(use), rng2.choice([None, 0, k, rng2.randrange(0, 10 ** 6)]), rng2.random() < 0.5, orders=tuple(val() for _ in range(ncol)),
+                      vpot=None if rng2.random() < 0.3 else val(), ekin=None if rng2.random() < 0.3 else val()) for k in range(n)]
+    for _ in range(120 if tier == "quick" else 1500):
+        ncol = rng2.choice([1, 1, 2])
+        fa = rand_frames(rng2.sample(namesA, rng2.randint(1, 3)), rng2.choice([1, 2, 3, 5, 8]), ncol)
+        useB = rng2.sample(namesB, rng2.randint(1, 3))
+        if rng2.random() < 0.3:      # B also refers to a file A left in place
+            useB.append(inpl + os.path.basename(fa[0]["file"]))
+        fb = rand_frames(useB, rng2.choice([1, 2, 3, 5, 8, 13]), rng2.choice([ncol, ncol, 1, 2]))
+        same_step = rng2.random() < 0.6
+        stepB = rng2.randrange(0, 10 ** 4)
+        add("restore:random", fb, files=files_for(fa + [fr for fr in fb if not fr["file"].startswith(inpl)]), step=stepB,
+            gen=rng2.choice([("sh", 0.5, 1, 2), "ld", ("s+", 0, 0, 0)]),
+            prior=[earlier(fa, step=stepB if same_step else rng2.randrange(0, 10 ** 4), gen=rng2.choice([("sh", 0.5, 1, 2), "re", None]))])
     return cases
+
+
+def why_unloadable(pdir):
+    """what the first block of traj.txt (the one load_path reads) refers to that is not under accepted/"""
+    try:
+        refs, nblocks = [], 0
+        with open(os.path.join(pdir, "traj.txt")) as f:
+            for ln in f:
+                if ln.startswith("# Cycle"):
+                    nblocks += 1
+                elif nblocks <= 1 and ln.strip() and not ln.startswith("#") and ln.split()[1] not in refs:
+                    refs.append(ln.split()[1])
+        accd = os.path.join(pdir, "accepted")
+        acc = sorted(os.listdir(accd)) if os.path.isdir(accd) else []
+        miss = [r for r in refs if r not in acc]
+        return (f" (traj.txt holds {nblocks} block(s); the first one refers to {miss[:4]} which do(es) not exist under "
+                f"{os.path.basename(pdir)}/accepted, present: {acc[:6]})") if miss or nblocks != 1 else ""
+    except Exception:  # noqa: BLE001
+        return ""
 
 
 # =========================================================================== (b) real runs
@@ -451,14 +574,128 @@ def read_active(wd):
         return list(tomli.load(f)["current"]["active"])
 
 
+def live_roundtrip(state, wd, load_dir="load"):
+    """The first half of the statement on the RUNNING program (no model): every live path, as the program holds it
+    in memory, against load_path() of its own directory <run directory>/<load_dir>/<n> - what a restart would read.
+    Returns (number of paths compared, problems)."""
+    from infretis.classes.path import load_path
+    probs, nchk = [], 0
+    for traj in state._trajs[:-1]:
+        if isinstance(traj, str) or traj is None or getattr(traj, "path_number", None) is None:
+            continue
+        pn = int(traj.path_number)
+        rel = os.path.join(load_dir, str(pn))
+        pdir = os.path.join(wd, rel)
+        own = os.path.realpath(os.path.join(pdir, "accepted"))
+        nchk += 1
+        pps = list(traj.phasepoints)
+
+        def full(pp):
+            f = pp.config[0]
+            return f if os.path.isabs(f) else os.path.join(wd, f)
+        if not os.path.isfile(os.path.join(pdir, "traj.txt")):
+            probs.append(f"live path {pn} cannot be read back: {rel}/traj.txt does not exist in the run directory"
+                         + (f" (its frame 0 refers to {full(pps[0])})" if pps else ""))
+            continue
+        try:
+            lp = load_path(pdir)
+        except Exception as e:  # noqa: BLE001
+            probs.append(f"live path {pn}: load_path({rel}) raises {e!r}" + why_unloadable(pdir))
+            continue
+        lps = list(lp.phasepoints)
+        if len(lps) != len(pps):
+            probs.append(f"live path {pn} has {len(pps)} frames, load_path({rel}) gives {len(lps)}" + why_unloadable(pdir))
+            continue
+        for i, (a, b) in enumerate(zip(pps, lps)):
+            ra = (os.path.basename(a.config[0]), int(a.config[1] or 0), bool(a.vel_rev))
+            rb = (os.path.basename(b.config[0]), int(b.config[1]), bool(b.vel_rev))
+            bad = None
+            if ra != rb:
+                bad = f"(file, index, reversed) = {ra}, load_path({rel}) gives {rb}"
+            elif os.path.realpath(os.path.dirname(full(a))) != own:
+                bad = f"refers to {full(a)}, which is not under the path's own directory {rel}/accepted"
+            elif not os.path.isfile(full(a)):
+                bad = f"refers to {full(a)}, which does not exist"
+            else:
+                oa = [] if a.order is None else [float(x) for x in (a.order if hasattr(a.order, "__len__") else [a.order])]
+                ob = [] if b.order is None else [float(x) for x in (b.order if hasattr(b.order, "__len__") else [b.order])]
+                if len(oa) != len(ob):
+                    bad = f"{len(oa)} order value(s), load_path({rel}) gives {len(ob)}"
+                else:
+                    vals = list(zip(oa, ob, ["order"] * len(oa)))
+                    for key in ("vpot", "ekin"):
+                        va = getattr(a, key, None)
+                        if va is not None and not math.isnan(float(va)):      # energies where present
+                            vb = getattr(b, key, None)
+                            vals.append((float(va), float("nan") if vb is None else float(vb), key))
+                    for va, vb, key in vals:
+                        if math.isnan(va) and math.isnan(vb):
+                            continue
+                        if math.isnan(va) or math.isnan(vb) or abs(Fraction(va) - Fraction(vb)) > Fraction(5, 10 ** 7) + Fraction(abs(vb)) / 2 ** 52:
+                            bad = f"{key} {va!r}, load_path({rel}) gives {vb!r}"
+                            break
+            if bad:
+                probs.append(f"live path {pn} frame {i}: {bad}" + why_unloadable(pdir))
+                break
+    return nchk, probs
+
+
+def apply_data_dir(wd, ddir):
+    """[output] data_dir of the infretis.toml that sysharness.write_setup produced := ddir (a legal setting: the
+    directory infretis_data.txt is written to).  "@abs": an absolute directory next to the run directory."""
+    if ddir is None:
+        return None
+    import tomli
+    import tomli_w
+    real = wd.rstrip("/") + "_data" if ddir == "@abs" else ddir
+    p = os.path.join(wd, "infretis.toml")
+    with open(p, "rb") as f:
+        cfg = tomli.load(f)
+    cfg["output"]["data_dir"] = real
+    with open(p, "wb") as f:
+        tomli_w.dump(cfg, f)
+    os.makedirs(real if os.path.isabs(real) else os.path.join(wd, real), exist_ok=True)
+    return real
+
+
+def data_file_state(wd, real):
+    """where the data file is (as recorded in restart.toml) against where it was configured"""
+    import tomli
+    rp = os.path.join(wd, "restart.toml")
+    if not os.path.isfile(rp):
+        return None
+    with open(rp, "rb") as f:
+        cfg = tomli.load(f)
+    df = cfg["output"].get("data_file")
+    want = real if os.path.isabs(real) else os.path.join(wd, real)
+    st = {"configured": real, "recorded_data_dir": cfg["output"].get("data_dir"), "recorded": df, "exists": False, "in_data_dir": False, "rows": 0, "stray": []}
+    if df:
+        adf = df if os.path.isabs(df) else os.path.join(wd, df)
+        st["exists"] = os.path.isfile(adf)
+        st["in_data_dir"] = os.path.realpath(os.path.dirname(adf)) == os.path.realpath(want)
+        if st["exists"]:
+            st["rows"] = sum(1 for ln in open(adf) if ln.strip() and not ln.startswith("#"))
+    if os.path.realpath(want) != os.path.realpath(wd):
+        st["stray"] = sorted(f for f in os.listdir(wd) if f.startswith("infretis_data"))
+    return st
+
+
+def unreadable_active(wd, load_dir="load"):
+    """paths listed as active in restart.toml whose traj.txt is not in <run directory>/<load_dir>/<n>/"""
+    act = read_active(wd) or []
+    return [pn for pn in act if not os.path.isfile(os.path.join(wd, load_dir, str(pn), "traj.txt"))]
+
+
 def del_case(arg):
     """Run the real program (segments separated by stops/restarts); record every treat_output."""
-    setup, sched, stops, aux = arg["setup"], arg.get("schedule") or [], list(arg.get("stops") or []), arg.get("aux", False)
+    setup, sched, stops, aux = dict(arg["setup"]), arg.get("schedule") or [], list(arg.get("stops") or []), arg.get("aux", False)
+    ddir = setup.pop("data_dir", None)      # not a parameter of sysharness.write_setup: applied to its infretis.toml below
     wd = H.scratch("infv_c14d_")
     n_init = setup.get("n_intf", 3)
-    out = {"records": [], "segments": [], "n_init": n_init}
+    out = {"records": [], "segments": [], "n_init": n_init, "data": []}
     try:
         H.write_setup(wd, **setup)
+        real_ddir = apply_data_dir(wd, ddir)
         out["init_tree"] = tree_of(wd)
         out["init_hash"] = {pn: hash_dir(os.path.join(wd, "load", str(pn))) for pn in range(n_init)}
         loadreal = os.path.realpath(os.path.join(wd, "load"))
@@ -516,6 +753,11 @@ def del_case(arg):
                     os.remove, os.rmdir = remove, rmdir
                     try:
                         res = inner(md)
+                        os.remove, os.rmdir = orig_remove, orig_rmdir
+                        try:
+                            rec["reloaded"], rec["roundtrip"] = live_roundtrip(state, wd)
+                        except Exception as e:  # noqa: BLE001
+                            rec["roundtrip_error"] = repr(e)
                     except BaseException as e:  # noqa: BLE001
                         rec["exception"] = repr(e)
                         raise
@@ -541,6 +783,11 @@ def del_case(arg):
             except Exception as e:  # noqa: BLE001
                 out["raised"] = repr(e)
                 break
+            if real_ddir is not None:
+                out["data"].append(data_file_state(wd, real_ddir))
+            if res["status"] == "none" and not first:
+                # setup_config refused to continue (it returns None when a path of restart.toml is not in load_dir)
+                out["restart_refused"] = {"segment": len(out["segments"]) - 1, "active": read_active(wd), "not_in_load_dir": unreadable_active(wd)}
             first = False
             if res["status"] != "stopped":
                 out["final"] = res["status"]
@@ -553,6 +800,124 @@ def del_case(arg):
         return out
     finally:
         shutil.rmtree(wd, ignore_errors=True)
+        shutil.rmtree(wd.rstrip("/") + "_data", ignore_errors=True)
+
+
+def redo_case(arg):
+    """A directory load/<n>/ that the real program stores into twice.
+    mode "crash": the run dies (BaseException, nothing of the program runs afterwards) inside treat_output right after
+    the k-th pstore.output returned ("after-store") or when that step is about to rewrite restart.toml ("before-toml");
+    it is continued from the restart file on disk (or from infretis.toml when none was written yet); the step is
+    done again and re-uses the path number.  mode "again": a run is stopped or finishes, then the simulation is
+    started again from infretis.toml in the same folder (path numbers start again at the number of ensembles).
+    After EVERY treat_output of the continued / second run: live_roundtrip."""
+    import crash_harness as CH
+    setup, sched = dict(arg["setup"]), list(arg.get("schedule") or [])
+    ddir = setup.pop("data_dir", None)
+    mode, k, point = arg["mode"], arg.get("k", 0), arg.get("point", "after-store")
+    wd = H.scratch("infv_c14r_")
+    out = {"problems": [], "steps_checked": 0, "reloaded": 0, "stored_first": [], "stored_again": [], "segments": []}
+    stage = {"n": 1, "stores": 0, "in_treat": False, "hit": False}
+    try:
+        H.write_setup(wd, **setup)
+        apply_data_dir(wd, ddir)
+
+        class R(H.Recorder):
+            def attach(self, state):
+                super().attach(state)
+                pst = state.pstore      # a class attribute: patched once per process, `stage` tells the segments apart
+                if not getattr(pst, "_c14_redo", False):
+                    orig_out = pst.output
+
+                    def logged_output(step, data):
+                        res = orig_out(step, data)
+                        pn = int(res.path_number)
+                        if stage["n"] == 1:
+                            out["stored_first"].append(pn)
+                            stage["stores"] += 1
+                            if mode == "crash" and stage["stores"] == k + 1:
+                                stage["hit"] = True
+                                out["crash"] = {"path": pn, "step": int(step), "point": point}
+                                if point == "after-store":
+                                    raise CH.Crash(f"crash right after load/{pn}/ was stored")
+                        elif pn in out["stored_first"] and pn not in out["stored_again"]:
+                            out["stored_again"].append(pn)
+                        return res
+                    pst.output = logged_output
+                    pst._c14_redo = True
+                inner_toml = state.write_toml
+
+                def write_toml():
+                    if stage["n"] == 1 and stage["hit"] and stage["in_treat"] and point == "before-toml":
+                        raise CH.Crash(f"crash before restart.toml is rewritten (load/{out['crash']['path']}/ is stored)")
+                    return inner_toml()
+                state.write_toml = write_toml
+                inner = state.treat_output
+
+                def treat(md):
+                    if arg.get("aux"):
+                        for e in md["picked"]:
+                            t = md["picked"][e]["traj"]
+                            if t.path_number is None:
+                                for a in t.adress:
+                                    with open(os.path.splitext(a)[0] + ".aux", "w") as f:
+                                        f.write("kept")
+                    stage["in_treat"] = True
+                    try:
+                        res = inner(md)
+                    finally:
+                        stage["in_treat"] = False
+                    if stage["n"] >= 2:
+                        nchk, probs = live_roundtrip(state, wd)
+                        out["steps_checked"] += 1
+                        out["reloaded"] += nchk
+                        if probs and len(out["problems"]) < 6:
+                            what = "continued after the crash" if mode == "crash" else "second run in the same folder"
+                            out["problems"] += [f"{what}, cstep {state.cstep}: {p}" for p in probs]
+                    return res
+                state.treat_output = treat
+
+        # ---- first run
+        try:
+            res = H.run_sim(wd, inp="infretis.toml", schedule=list(sched), stop_after=arg.get("stop1"), recorder=R(with_frac=False))
+            out["segments"].append(res["status"])
+        except CH.Crash as c:
+            out["segments"].append("crash: " + str(c))
+        if mode == "crash" and not stage["hit"]:
+            out["not_reached"] = True
+            return out
+        stage["n"] = 2
+        have_restart = os.path.exists(os.path.join(wd, "restart.toml"))
+        out["restart_file_after_first_run"] = {"active": read_active(wd)} if have_restart else None
+        inp = "restart.toml" if (mode == "crash" and have_restart) else "infretis.toml"
+        # ---- continued / second run, optionally stopped and continued once more
+        for stop in ([arg["stop2"], None] if arg.get("stop2") else [None]):
+            try:
+                res = H.run_sim(wd, inp=inp, schedule=[], stop_after=stop, recorder=R(with_frac=False))
+            except CH.Crash as c:      # cannot happen in stage 2
+                out["raised"] = "Crash " + str(c)
+                break
+            except Exception as e:  # noqa: BLE001
+                out["raised"] = repr(e) + " :: " + traceback.format_exc()[-700:]
+                out["raised_in"] = inp
+                break
+            out["segments"].append(res["status"])
+            if res["status"] == "none":
+                out["refused"] = {"inp": inp, "active": read_active(wd), "not_in_load_dir": unreadable_active(wd)}
+                break
+            if res["status"] != "stopped":
+                break
+            inp = "restart.toml"
+        ok, active, missing = CH.referenced_files(wd)
+        out["end"] = {"restart_parses": ok, "active": active, "missing": {int(a): b for a, b in missing.items()} if ok else missing}
+        return out
+    finally:
+        shutil.rmtree(wd, ignore_errors=True)
+        shutil.rmtree(wd.rstrip("/") + "_data", ignore_errors=True)
+
+
+def sys_case(arg):
+    return redo_case(arg) if arg.get("kind") == "redo" else del_case(arg)
 
 
 def dir_summary(t):
@@ -754,6 +1119,47 @@ def gen_del_cases(rng, tier):
     if not quick:
         add("keep:O2", dict(n_intf=2, workers=2, steps=16, seed=2, delete_old=True, delete_old_all=True, keep_traj_fnames=[".aux"]), [1, 0, 1, 0], aux=True)
         add("keep:delete_old", dict(n_intf=4, workers=2, steps=24, seed=3, delete_old=True, keep_traj_fnames=[".aux"]), [1, 0, 1, 1], [9], aux=True)
+    # [output] data_dir other than the run directory (legal: write_header / write_to_pathens honour it; every shipped
+    # input has "./"): the stored paths must still be where load_path, the restart check and delete_old look for
+    # them - <run directory>/<load_dir>/<n>/.  Relative, nested and absolute ("@abs") data_dir; fixed schedules.
+    dd = [("results", 3, 1, (False, False), []), ("results", 3, 1, (True, False), [7]), ("results", 3, 2, (True, True), [9]),
+          ("results", 4, 2, (True, False), [6, 7]), ("results", 2, 1, (True, True), []), ("out/data/", 3, 1, (True, True), [5]),
+          ("@abs", 3, 1, (True, False), [6]), ("@abs", 3, 2, (True, True), []), ("@abs", 4, 3, (False, False), [9])]
+    for i, (ddir, n_intf, W, (dold, dall), stops) in enumerate(dd):
+        for seed in ([1] if quick else [1, 2, 3]):
+            steps = 10 + 4 * n_intf
+            add(f"datadir:{'abs' if ddir == '@abs' else 'rel'}:n{n_intf}:W{W}:{int(dold)}{int(dall)}",
+                dict(n_intf=n_intf, workers=W, steps=steps, seed=seed, delete_old=dold, delete_old_all=dall, data_dir=ddir),
+                [(3 * k + i + seed) % 3 for k in range(steps)] if W > 1 else [], stops)
+    add("datadir:rel:keep", dict(n_intf=3, workers=1, steps=16, seed=1, delete_old=True, keep_traj_fnames=[".aux"], data_dir="results"), [], [8], aux=True)
+    add("datadir:abs:keep", dict(n_intf=3, workers=1, steps=16, seed=2, delete_old=True, keep_traj_fnames=[".aux"], data_dir="@abs"), aux=True)
+    add("datadir:rel:wf", dict(n_intf=3, workers=2, steps=20, seed=1, moves=["sh", "sh", "wf"], cap=2.5, delete_old=True, delete_old_all=True, data_dir="results"),
+        [k % 2 for k in range(20)], [9])
+    return cases
+
+
+def gen_redo_cases(tier):
+    """load/<n>/ stored into twice by the real program (fixed cases: no random stream is consumed)"""
+    quick = tier == "quick"
+    cases = []
+
+    def add(cls, setup, mode, **kw):
+        cases.append(dict({"kind": "redo", "class": cls, "setup": setup, "mode": mode}, **kw))
+    base = dict(n_intf=3, workers=1, steps=14, seed=1)
+    for i, (dold, dall) in enumerate([(False, False), (True, False), (True, True)]):
+        for j, (k, point) in enumerate([(0, "after-store"), (1, "before-toml"), (3, "after-store"), (4, "before-toml")] if quick else
+                                       [(k, pt) for k in range(7) for pt in ("after-store", "before-toml")]):
+            if quick and (i + j) % 2 and dold:
+                continue
+            add(f"redo:crash:{point}:{int(dold)}{int(dall)}", dict(base, seed=1 + (i + j) % 3, delete_old=dold, delete_old_all=dall), "crash", k=k, point=point,
+                stop2=(5 if j % 2 else None))
+    add("redo:crash:after-store:W2", dict(n_intf=3, workers=2, steps=14, seed=2, delete_old=True), "crash", k=2, point="after-store", schedule=[1, 0, 1, 1, 0, 0, 1])
+    add("redo:crash:before-toml:n4", dict(n_intf=4, workers=2, steps=18, seed=3, delete_old=True, delete_old_all=True), "crash", k=3, point="before-toml",
+        schedule=[0, 1, 1, 0, 1], stop2=6)
+    add("redo:crash:after-store:keep", dict(base, delete_old=True, keep_traj_fnames=[".aux"]), "crash", k=2, point="after-store", aux=True)
+    add("redo:crash:before-toml:datadir", dict(base, delete_old=True, data_dir="results"), "crash", k=2, point="before-toml", stop2=4)
+    for dold, dall, stop1 in [(False, False, None), (True, False, 8), (True, True, None)]:
+        add(f"redo:again:{int(dold)}{int(dall)}", dict(base, steps=12, delete_old=dold, delete_old_all=dall), "again", stop1=stop1, stop2=(4 if dold and not dall else None))
     return cases
 
 
@@ -780,23 +1186,27 @@ def run(ctx):
     runner = common.runner_stage(ctx, "c14")
     rng = ctx.rng
     quick = ctx.tier == "quick"
-    nviol = {"func": 0, "corr": 0, "del": 0}
+    nviol = {"func": 0, "func2": 0, "corr": 0, "del": 0, "redo": 0}
 
     # ---------------- (a) functional lock-step
-    fcases = gen_func_cases(rng, ctx.tier)
+    fcases = gen_func_cases(rng, ctx.tier, seed=ctx.seed)
     reqs, metas = [], []
     hyp_out = {}
     for case in fcases:
         req, impl, problems, hyp = run_func_case(case)
-        ctx.dist("func:" + case["class"] + (":collision" if hyp[1] else "") + (":outside" if hyp[0] else ""))
+        ctx.dist("func:" + case["class"].split(":")[0] + (":collision" if hyp[1] else "") + (":outside" if hyp[0] else ""))
         for h in hyp[0]:
             hyp_out[h] = hyp_out.get(h, 0) + 1
         if hyp[1]:
             hyp_out["colliding-basenames"] = hyp_out.get("colliding-basenames", 0) + 1
         ctx.count(("func", req), nontrivial=bool(case["frames"]))
-        if problems and nviol["func"] < 4:
-            nviol["func"] += 1
-            ctx.violation(f"C14 statement fails on the implementation: {problems[0]}", {"case": case, "problems": problems}, found_input=True)
+        if problems and nviol["func" if not case.get("prior") else "func2"] < (4 if not case.get("prior") else 2):
+            nviol["func" if not case.get("prior") else "func2"] += 1
+            pre = ""
+            if case.get("prior"):
+                pre = (f"a path of {len(case['frames'])} frame(s) stored (step {case['step']}) into load/{case['pn']}/, which already held a path of "
+                       f"{len(case['prior'][-1]['frames'])} frame(s) stored by PathStorage.output (step {case['prior'][-1]['step']}), and loaded again: ")
+            ctx.violation(f"C14 statement fails on the implementation: {pre}{problems[0]}", {"case": case, "problems": problems}, found_input=True)
         reqs.append(req)
         metas.append((case, impl, hyp))
     # a path longer than the default maximum length of a fresh Path object (legal whenever
@@ -825,7 +1235,10 @@ def run(ctx):
 
     # ---------------- (b) real runs
     dcases = gen_del_cases(rng, ctx.tier)
-    res = H.run_many(del_case, dcases, jobs=14, timeout=900)
+    rcases = gen_redo_cases(ctx.tier)
+    res = H.run_many(sys_case, dcases + rcases, jobs=14, timeout=900)
+    res, rres = res[:len(dcases)], res[len(dcases):]
+    nreload = 0
     dreqs, dmeta = [], []
     o2_seen, o2_expected = 0, 0
     collisions_real = 0
@@ -839,10 +1252,34 @@ def run(ctx):
         ctx.count(("del", json.dumps(case, sort_keys=True)), nontrivial=ndel > 0 or not case["setup"].get("delete_old"), n=nrec)
         ctx.dist("del:steps", nrec)
         ctx.dist("del:files-removed", ndel)
-        probs = oracle_del(case, obs)
+        # the round trip of every live path after every step (what a restart would read), then the deletion clauses
+        probs = [f"step {ri}: {p}" for ri, r in enumerate(obs["records"]) for p in r.get("roundtrip") or []][:6]
+        nreload += sum(r.get("reloaded", 0) for r in obs["records"])
+        rr = obs.get("restart_refused")
+        if rr and rr["not_in_load_dir"]:
+            probs.append(f"the run cannot be continued: restart.toml lists the active paths {rr['active']}, of which {rr['not_in_load_dir']} are not in load/ "
+                         "(setup_config returns None)")
+        probs += oracle_del(case, obs)
+        dd = case["setup"].get("data_dir")
         if probs and nviol["del"] < 4:
             nviol["del"] += 1
-            ctx.violation(f"C14 statement fails on the implementation: {probs[0]}", {"case": case, "problems": probs}, found_input=True)
+            ctx.violation(f"C14 statement fails on the implementation{f' (real run with [output] data_dir = {dd!r})' if dd else ''}: {probs[0]}",
+                          {"case": case, "problems": probs}, found_input=True)
+        oerr = [r["roundtrip_error"] for r in obs["records"] if "roundtrip_error" in r]
+        if oerr:
+            ctx.violation(f"harness failure: the round-trip oracle raised {oerr[0]} in scenario {case['class']}", {"case": case, "errors": oerr[:3]}, found_input=False)
+        if rr and not rr["not_in_load_dir"]:
+            ctx.violation(f"the real program refused to continue from restart.toml in scenario {case['class']} although every active path is in load/",
+                          {"case": case, "restart_refused": rr}, found_input=False)
+        if dd:
+            # the scenario is what it claims to be: the data file is in data_dir (and only there) and is recorded in restart.toml
+            ctx.dist("del:datadir:" + ("absolute" if dd == "@abs" else "relative"))
+            for seg, st in enumerate(obs.get("data") or []):
+                nacc = sum(1 for r in obs["records"] if r["status"] == "ACC" and "exception" not in r)
+                if st is None or not (st["exists"] and st["in_data_dir"]) or st["stray"] or (nacc and not st["rows"]):
+                    ctx.violation(f"scenario {case['class']}: with data_dir = {dd!r} the data file is not where it was configured after run segment {seg}: {st}",
+                                  {"case": case, "data_file": st}, found_input=False)
+                    break
         # base names of one stored path are distinct in real runs? (hypothesis of the content theorem)
         for r in obs["records"]:
             for pn, t in r["tree"].items():
@@ -869,6 +1306,40 @@ def run(ctx):
                               {"correspondence": "c14 runner (del) vs REPEX_state.treat_output", "case": case, "differences": diffs}, found_input=False)
         if dreqs:
             ctx.sample({"request": dreqs[0][:400], "model": outs[0][:600]})
+    # ---------------- (c) load/<n>/ stored into twice by the real program
+    redo_stats = {"runs": 0, "crash-point-not-reached": 0, "directories-stored-again": 0, "steps-checked": 0, "live-paths-reloaded": 0}
+    for case, (tag, obs) in zip(rcases, rres):
+        if tag != "ok":
+            ctx.violation(f"harness failure in a real run {case['class']}: {str(obs)[:300]}", {"case": case, "error": str(obs)}, found_input=False)
+            continue
+        redo_stats["runs"] += 1
+        ctx.dist(":".join(case["class"].split(":")[:2]))
+        if obs.get("not_reached"):
+            redo_stats["crash-point-not-reached"] += 1
+            ctx.count(("redo", json.dumps(case, sort_keys=True)), nontrivial=False)
+            continue
+        redo_stats["directories-stored-again"] += len(obs["stored_again"])
+        redo_stats["steps-checked"] += obs["steps_checked"]
+        redo_stats["live-paths-reloaded"] += obs["reloaded"]
+        ctx.count(("redo", json.dumps(case, sort_keys=True)), nontrivial=bool(obs["stored_again"]), n=max(1, obs["steps_checked"]))
+        probs = list(obs["problems"])
+        if obs.get("refused") and obs["refused"]["not_in_load_dir"]:
+            probs.append(f"the run cannot be continued from {obs['refused']['inp']}: it lists the active paths {obs['refused']['active']}, of which "
+                         f"{obs['refused']['not_in_load_dir']} are not in load/")
+        end = obs.get("end") or {}
+        if end.get("restart_parses") and end.get("missing"):
+            probs.append(f"at the end the paths listed in restart.toml lack files: {end['missing']}")
+        how = (f"the run died {obs['crash']['point'].replace('-', ' ')} (load/{obs['crash']['path']}/ stored at step {obs['crash']['step']}, restart.toml not yet rewritten), "
+               "was continued and the step was done again" if case["mode"] == "crash" else "the simulation was started again from infretis.toml in the folder of an earlier run")
+        if probs and nviol["redo"] < 3:
+            nviol["redo"] += 1
+            ctx.violation(f"C14 statement fails on the implementation: {how}; directories stored into a second time: load/{obs['stored_again']}; {probs[0]}",
+                          {"case": case, "problems": probs, "segments": obs["segments"], "stored_again": obs["stored_again"]}, found_input=True)
+        elif not probs and (obs.get("raised") or (obs.get("refused") and not obs["refused"]["not_in_load_dir"])):
+            ctx.violation(f"the real program failed in scenario {case['class']} ({how}): {obs.get('raised') or obs.get('refused')}",
+                          {"case": case, "raised": obs.get("raised"), "refused": obs.get("refused"), "segments": obs["segments"]}, found_input=False)
+    ctx.cov["stored_again_runs"] = redo_stats
+    ctx.dist("del:live-paths-reloaded", nreload)
     ctx.cov["observations"] = {
         "O2": (f"confirmed on the real program in {o2_seen}/{o2_expected} scenario(s): delete_old_all with keep_traj_fnames -> "
                "OSError(39, 'Directory not empty') from os.rmdir(load/<pn>/accepted) inside treat_output at the first deletion; the model "
@@ -881,13 +1352,21 @@ def run(ctx):
                        "judged by the oracle); functional cases: all assignments of (3 files incl. a colliding base name) x (index None/0/2) x "
                        f"(direction) to paths of <= {2 if quick else 3} frames, every special value (width limit, ties, -0.0, NaN, tiny, huge) in every "
                        "column, names, keep_traj_fnames, headers, seeded random paths; runs: n_intf 2-4 x workers 1-3 x 4 flag combinations x seeds, "
-                       "with 0-2 restarts; non-trivial = a non-empty path / a run in which files were removed (or deletion is off)")
-    ctx.cov["correspondence"] = {"functional_cases": len(fcases), "real_runs": len(dcases), "treat_output_calls": sum(len(o["records"]) for _, o, _, _ in dmeta),
+                       "with 0-2 restarts; the same with [output] data_dir = 'results' / 'out/data/' / an absolute directory (after every step every live "
+                       "path is loaded from <run directory>/load/<n>/ and compared with the path in memory); directories stored into twice: path A then a "
+                       "different path B (longer, shorter, same names, only energies/orders/directions differ, B re-using A's files, keep_traj_fnames, three "
+                       "stores, seeded random pairs) and real runs that die right after pstore.output / before write_toml, are continued and redo the step, "
+                       "or are started again from scratch in the same folder (one evaluation = one treat_output of the continued run); "
+                       "non-trivial = a non-empty path / a run in which files were removed (or deletion is off) / a run in which a directory was stored again")
+    ctx.cov["correspondence"] = {"functional_cases": len(fcases), "functional_cases_into_a_used_directory": sum(1 for c in fcases if c.get("prior")),
+                                 "real_runs": len(dcases), "real_runs_data_dir": sum(1 for c in dcases if c["setup"].get("data_dir")),
+                                 "real_runs_stored_again": len(rcases), "live_paths_reloaded": nreload + redo_stats["live-paths-reloaded"], "treat_output_calls": sum(len(o["records"]) for _, o, _, _ in dmeta),
                                  "model_used": runner is not None}
     ctx.cov["trusted_base"] += ["extraction: ExtrOcamlBasic only; ocaml/util.ml + ocaml/c14_driver.ml", "py/params_c14.py", "py/sysharness.py, py/plugins/engines.py",
-                                "py/checks/c14.py generators, recorders and oracles"]
+                                "py/crash_harness.py (Crash, referenced_files)", "py/checks/c14.py generators, recorders and oracles"]
     ctx.assumptions += ["base names non-empty, no white space; uniform number of order columns; non-empty path (evaluated per case)",
-                        "finite or NaN values (inf not generated)", "restarts at step boundaries (a crash inside treat_output is C08)"]
+                        "finite or NaN values (inf not generated)", "restarts at step boundaries (a crash inside treat_output is C08), except the two crash points of family (c)",
+                        "data_dir exists before the run starts (the program does not create it)"]
 
 
 def replay(doc):
@@ -914,6 +1393,10 @@ def replay(doc):
         except Exception as e:  # noqa: BLE001
             print("model not available:", e)
         return 1 if problems else 0
+    if case.get("kind") == "redo":
+        (tag, obs), = H.run_many(redo_case, [case], jobs=1)
+        print(tag, json.dumps(obs, indent=1, default=str)[:4000])
+        return 1 if tag != "ok" or obs.get("problems") or obs.get("raised") or obs.get("refused") else 0
     (tag, obs), = H.run_many(del_case, [case], jobs=1)
     if tag != "ok":
         print(tag, obs)
@@ -921,7 +1404,11 @@ def replay(doc):
     for ri, r in enumerate(obs["records"]):
         print(ri, r["status"], "old", r["pn_old"], "events", [(e[0], e[1]) + ((e[2],) if len(e) > 2 else ()) for e in r["events"]], "live", r["live"],
               "pn_olds", r["pn_olds"], "active", r["active"], r.get("exception", ""))
-    probs = oracle_del(case, obs)
+    probs = [f"step {ri}: {p}" for ri, r in enumerate(obs["records"]) for p in r.get("roundtrip") or []][:6]
+    if obs.get("restart_refused"):
+        probs.append(f"restart refused: {obs['restart_refused']}")
+    probs += oracle_del(case, obs)
+    print("data file per run segment:", obs.get("data"))
     print("oracle problems:", probs)
     try:
         r = common.Runner("c14")
